@@ -160,7 +160,8 @@ func vObjAt(kind int, tx, ty float64, flip bool) Object {
 }
 
 // H_Obj_Sem: semantic laws for the pair of kinds (ka, kb): A is a fixed small shape, B a fixed small shape under
-// an arbitrary real translation (every relative placement).
+// an arbitrary real translation (every relative placement). With p[3] == 1 the first shape moves and the second
+// stays: used with a concrete Circle as B (its polygon computed by libm on constants).
 func H_Obj_Sem(p []int) {
 	ka, kb := p[0], p[1]
 	tx, ty := vF("tx", 0), vF("ty", 0)
@@ -168,8 +169,13 @@ func H_Obj_Sem(p []int) {
 	if len(p) > 2 { // thorough tier: the other three combinations of the two base shapes
 		flipA, flipB = p[2]&1 != 0, p[2]&2 != 0
 	}
+	moveA := len(p) > 3 && p[3] == 1 // the first operand moves and the second stays (a concrete Circle as B)
 	A := vObjAt(ka, 0, 0, flipA)
 	B := vObjAt(kb, tx, ty, flipB)
+	if moveA {
+		A = vObjAt(ka, tx, ty, flipA)
+		B = vObjAt(kb, 0, 0, flipB)
+	}
 	ab, ba := A.Intersects(B), B.Intersects(A)
 	vAssert(ab == ba, "C09.intersects-symmetric")
 	if A.Contains(B) && !B.Empty() {
@@ -185,6 +191,11 @@ func H_Obj_Sem(p []int) {
 		base := []geometry.Point{{X: 0, Y: 0}, {X: 2, Y: 0}, {X: 0, Y: 2}}
 		if flipA {
 			base = []geometry.Point{{X: 0, Y: 0}, {X: 1, Y: 1}, {X: 2, Y: 0}}
+		}
+		if moveA {
+			for i := range base {
+				base[i] = geometry.Point{X: base[i].X + tx, Y: base[i].Y + ty}
+			}
 		}
 		ea := vEquiv(4, base)
 		vAssert(A.Contains(B) == ea.Contains(B), "C09.rect-transparent-contains")
